@@ -22,7 +22,9 @@ Inductive ev6 :=
 | CTime2 (ch ms : Z)                (* staircase time of a channel changed *)
 | COtherEv
 | CChCfg (ch func ctype csize ms : Z)   (* supla_esp_channel_config_result (as C07's EChCfg) *)
-| CSent (rs : list Z).                  (* the TCP layer: results of the next espconn_sent calls (0 afterwards) *)
+| CSent (rs : list Z)                   (* the TCP layer: results of the next espconn_sent calls (0 afterwards) *)
+| CAdv (dt : Z)                         (* dt microseconds pass with the SDK timers running (countdown, state save, uptime poll) *)
+| CBurst (l : list Z).                  (* several SET_VALUE frames (ch v dur sender)* in ONE receive callback *)
 
 Definition frame_size (k : call) : Z :=
   FRAME_OVERHEAD + match k with CVal _ _ => SIZE_VALUE_MSG | CRes _ _ _ => SIZE_RESULT_MSG | CExt _ _ _ _ => SIZE_EXT_MSG | COther _ => 0 end.
@@ -84,6 +86,21 @@ Definition iterate6 (s : st) : st :=
 (* supla_esp_devconn_iterate: the staged bytes are retried first *)
 Definition dev_iterate (s : st) : st := if conn s then dw [] 0 s else s.
 
+(* ---------- the receive side ----------
+   supla_esp_devconn_recv_cb appends the segment to the receive buffer and runs one supla_esp_devconn_iterate;
+   srpc_iterate moves up to SRPC_BUFFER_SIZE bytes on and handles ONE frame per call: requests that arrived together wait
+   in `inq` (oldest first) for the following iterates.  (Frames are shorter than SRPC_BUFFER_SIZE, so a complete one is
+   always available while any is pending; segments that overflow the 1024-byte buffers are outside the model.) *)
+Fixpoint reqs (l : list Z) : list (Z * Z * Z * Z) :=
+  match l with ch :: v :: d :: sd :: t => (ch, v, d, sd) :: reqs t | _ => [] end.
+Definition handle1 (e : bool) (c : cfg) (s : st) : st :=
+  match inq s with
+  | (ch, v, d, sd) :: t => channel_set_value e c (u8 ch) v d sd (set_inq t s)
+  | [] => s
+  end.
+Definition dev_step (e : bool) (c : cfg) (s : st) : st := iterate6 (handle1 e c (dev_iterate s)).
+Definition recv (e : bool) (c : cfg) (l : list (Z * Z * Z * Z)) (s : st) : st := dev_step e c (set_inq (inq s ++ l) s).
+
 (* supla_esp_gpio_on_input_active / _inactive, non-shutter branch, no action triggers configured *)
 Definition on_input (e : bool) (c : cfg) (i : input) (act : bool) (s : st) : st :=
   let mono := (i_type i =? IN_MONO) && (if act then hasf (i_flags i) IN_FLAG_ON_PRESS else negb (hasf (i_flags i) IN_FLAG_ON_PRESS)) in
@@ -97,11 +114,11 @@ Definition q_line (s : st) : out :=
 
 Definition step6 (e : bool) (c : cfg6) (s : st) (x : ev6) : st :=
   let s1 := match x with
-            | CReg => set_sres [] (set_sb_n 0 (set_obuf [] (set_queue [] (set_regreq true (set_reg true (set_conn true
-                        (set_chfl (map r_chfl (c_relays (c6 c))) s)))))))
-            | CIter => iterate6 (dev_iterate s)
-            | CSetV ch v dur sender => iterate6 (channel_set_value e (c6 c) (u8 ch) v dur sender (dev_iterate s))
-            | CGrp ch v dur => iterate6 (channel_set_value e (c6 c) (u8 ch) v dur 0 (dev_iterate s))
+            | CReg => set_inq [] (set_sres [] (set_sb_n 0 (set_obuf [] (set_queue [] (set_regreq true (set_reg true (set_conn true
+                        (set_chfl (map r_chfl (c_relays (c6 c))) s))))))))
+            | CIter => dev_step e (c6 c) s
+            | CSetV ch v dur sender => recv e (c6 c) [(ch, v, dur, sender)] s
+            | CGrp ch v dur => recv e (c6 c) [(ch, v, dur, 0)] s
             | CBtn idx act => match nth_error (c6_inputs c) (Z.to_nat idx) with
                               | Some i => if idx <? 0 then s else on_input e (c6 c) i (negb (act =? 0)) s
                               | None => s end
@@ -110,6 +127,8 @@ Definition step6 (e : bool) (c : cfg6) (s : st) (x : ev6) : st :=
             | COtherEv => emit OUnknown s
             | CChCfg ch func ctype csize ms => channel_config e (c6 c) ch func ctype csize ms s
             | CSent rs => set_sres rs s
+            | CAdv dt => if dt <? 0 then s else advance e (c6 c) dt s
+            | CBurst l => recv e (c6 c) (reqs l) s
             end in
   emit (q_line s1) s1.
 
@@ -145,6 +164,8 @@ Definition ev6_of_wire (w : wire) : ev6 :=
     else if k =? 7 then match a with [ch; ms] => CTime2 ch ms | _ => COtherEv end
     else if k =? 8 then match a with [ch; f; ct; cs; ms] => CChCfg ch f ct cs ms | _ => COtherEv end
     else if k =? 9 then CSent a
+    else if k =? 10 then match a with [dt] => CAdv dt | _ => COtherEv end
+    else if k =? 11 then CBurst a
     else COtherEv
   end.
 Definition call_id (k : call) : Z :=
@@ -153,6 +174,7 @@ Definition wire_of_out6 (o : out) : list wire :=
   match o with
   | OGpio t p l => [mk 0 [t; p; l] []]
   | OUnknown => [mk 5 [] []]
+  | OFuel => [mk 4 [] []]
   | OWire t (CVal ch v) => [mk 10 [t; ch; v] []]
   | OWire t (CRes ch sd ok) => [mk 11 [t; ch; sd; ok] []]
   | OWire t (CExt ch rm tg sd) => [mk 12 [t; ch; rm; tg; sd] []]
